@@ -211,16 +211,12 @@ func (j *JSON) Persist() (err error) {
 
 func (j *JSON) add(file sts.Hashed) {
 	j.dirty = true
-	if existing, ok := j.Files[file.GetName()]; ok {
-		existing.Size = file.GetSize()
-		existing.Time = marshal.NanoTime{Time: file.GetTime()}
-		existing.Meta = file.GetMeta()
-		existing.Hash = file.GetHash()
-		// A file is (re-)added because it is new or has changed, so whatever
-		// was confirmed before no longer applies to it
-		existing.Done = false
-		return
-	}
+	// A file is (re-)added because it is new or has changed, so whatever was
+	// confirmed before no longer applies to it.  An existing entry is replaced,
+	// not updated in place: entries are handed out (recovery puts them in the
+	// send queue as they are) and whoever still holds the old one has to go on
+	// seeing the version it was given - a queued file whose size changes under
+	// the queue makes it compute negative chunks and panic.
 	j.Files[file.GetName()] = &cacheFile{
 		path: file.GetPath(),
 		name: file.GetName(),
